@@ -132,13 +132,16 @@ theorem zeroCost_maxBits {o : Opts} {t : Ty} (h : zeroCost o t = true) : maxBits
   cases t <;> simp [zeroCost] at h <;> rfl
 
 theorem serElems_nonbool (o : Opts) (t : Ty) (ht : t ≠ .bool) (elem : Val → Buf → Nat → Except Err W)
-    (vs : List Val) (storN : Nat) (buf : Buf) (off : Nat) :
-    serElems o t elem vs storN buf off =
+    (vs : List Val) (storN : Nat) (post : Option (Nat × Nat)) (buf : Buf) (off : Nat) :
+    serElems o t elem vs storN post buf off =
       if zeroCost o t then
         match liftP (copyBits buf off (vs.length * primBits t) (arrRep t vs storN) 0) with
         | .error e => .error e
         | .ok b => .ok (b, off + vs.length * primBits t)
-      else serLoop elem vs buf off := by
+      else
+        match serLoop elem vs buf off with
+        | .error e => .error e
+        | .ok (b, off') => assertC o (inRange (off' - off) post = true) (.ok (b, off')) := by
   cases t <;> first | exact absurd rfl ht | rfl
 
 /-! ### the element loop -/
@@ -153,7 +156,8 @@ theorem serLoop_refines (t : Ty) (hT : SerOKC o t) (hw : wf t = true) (hwC : wfC
     ∀ (vs : List Val) (buf : Buf) (off j x : Nat), (∀ v ∈ vs, hasTy t v = true ∧ storageOK t v = true) → WF buf →
       cap ≤ buf.length → off + vs.length * maxBits t ≤ 8 * cap → off % align t = 0 → off = off0 + x →
       Sums (resBits t) j x → j + vs.length ≤ K + 1 →
-      SerRefines (serLoop (fun v b f => serAny o t v cap (d0.add R) b f) vs buf off)
+      SerRefines (serLoop (fun v b f => anyGuard o t (some (cap * 8)) (d0.add R) f (serAny o t v cap (d0.add R) b f))
+          vs buf off)
         (serAllWith (serBits t) vs) buf off := by
   intro vs
   induction vs with
@@ -170,6 +174,8 @@ theorem serLoop_refines (t : Ty) (hT : SerOKC o t) (hw : wf t = true) (hwC : wfC
     have h1 := hT hw hwC v cap (d0.add R) buf off hv.1 hv.2 hwf hcap
       (by rw [Nat.succ_mul] at hroom; omega) hadm hal
     simp only [serLoop, serAllWith]
+    rw [anyGuard_ok o hs t _ _ _ _ hal hadm (by
+      simp only [optLe, decide_eq_true_eq]; rw [Nat.succ_mul] at hroom; omega)]
     cases hsv : serBits t v with
     | error e =>
       rw [hsv] at h1
@@ -199,11 +205,13 @@ theorem serLoop_refines (t : Ty) (hT : SerOKC o t) (hw : wf t = true) (hwC : wfC
 
 theorem serElems_refines (t : Ty) (hT : SerOKC o t) (hw : wf t = true) (hwC : wfC t = true) (cap : Nat)
     (d0 R : AOff) (K : Nat) (hR : ∀ x, Sums (resBits t) K x → Adm R x)
-    (vs : List Val) (storN : Nat) (buf : Buf) (off : Nat) (hd0 : Adm d0 off)
+    (vs : List Val) (storN : Nat) (post : Option (Nat × Nat)) (buf : Buf) (off : Nat) (hd0 : Adm d0 off)
     (hall : ∀ v ∈ vs, hasTy t v = true ∧ storageOK t v = true) (hwf : WF buf)
     (hcap : cap ≤ buf.length) (hroom : off + vs.length * maxBits t ≤ 8 * cap) (hal : off % align t = 0)
-    (hk : vs.length ≤ K + 1) :
-    SerRefines (serElems o t (fun v b f => serAny o t v cap (d0.add R) b f) vs storN buf off)
+    (hk : vs.length ≤ K + 1)
+    (hpost : ∀ bits, serAllWith (serBits t) vs = .ok bits → inRange bits.length post = true) :
+    SerRefines (serElems o t (fun v b f => anyGuard o t (some (cap * 8)) (d0.add R) f (serAny o t v cap (d0.add R) b f))
+        vs storN post buf off)
       (serAllWith (serBits t) vs) buf off := by
   by_cases hb : t = .bool
   · subst hb
@@ -258,8 +266,22 @@ theorem serElems_refines (t : Ty) (hT : SerOKC o t) (hw : wf t = true) (hwC : wf
       rw [hr]
       exact ⟨r, by simp [hbl], hwr⟩
     · simp only [hz, Bool.false_eq_true, if_false]
-      exact serLoop_refines o hs t hT hw hwC cap d0 R off K hd0 hR vs buf off 0 0 hall hwf hcap hroom hal rfl
+      have hl := serLoop_refines o hs t hT hw hwC cap d0 R off K hd0 hR vs buf off 0 0 hall hwf hcap hroom hal rfl
         (sums_zero _ _) (by omega)
+      cases hsa : serAllWith (serBits t) vs with
+      | error e =>
+        rw [hsa] at hl
+        simp only [SerRefines] at hl ⊢
+        rw [hl]
+      | ok bits =>
+        rw [hsa] at hl
+        simp only [SerRefines] at hl ⊢
+        obtain ⟨b1, hb1, hw1⟩ := hl
+        rw [hb1]
+        dsimp only
+        rw [assertC_ok o (show inRange (off + bits.length - off) post = true by
+          rw [Nat.add_sub_cancel_left]; exact hpost bits hsa)]
+        exact ⟨b1, rfl, hw1⟩
 
 /-! ### struct fields and union options -/
 
@@ -306,6 +328,8 @@ theorem serFields_refines : ∀ fs : List Ty, (∀ f ∈ fs, SerOKC o f) → wfA
       have h1 := hT f (by simp) hw.1 hwC.1 v cap (d.pad (align f)) b0 (padTo (align f) off) ht.1 hst.1 (hw0.wf hwf)
         (by rw [hw0.len]; exact hcap) (by omega) (adm_pad (align_cases f) hd) (padTo_mod (align_cases f) off)
       simp only [GenC.serFields, Dsdl.serFields, hb0]
+      rw [anyGuard_ok o hs f _ _ _ _ (padTo_mod (align_cases f) off) (adm_pad (align_cases f) hd) (by
+        simp only [optLe, decide_eq_true_eq]; omega)]
       cases hsv : serBits f v with
       | error e =>
         rw [hsv] at h1
@@ -376,6 +400,7 @@ theorem serNth_refines : ∀ fs : List Ty, (∀ f ∈ fs, SerOKC o f) → wfAll 
       simp only [hasTyNth] at ht
       simp only [storageOKNth] at hst
       simp only [GenC.serNth, Dsdl.serNth]
+      rw [anyGuard_ok o hs f _ _ _ _ (align_mod_of_mod8 f hal) hd (by simp only [optLe, decide_eq_true_eq]; omega)]
       exact hT f (by simp) hw.1 hwC.1 v cap d buf off ht hst hwf hcap (by omega) hd (align_mod_of_mod8 f hal)
     | succ k =>
       simp only [hasTyNth] at ht
@@ -399,7 +424,8 @@ theorem serP_struct (fs : List Ty) (ih : ∀ f ∈ fs, SerP o f) : SerP o (.stru
       simp only [hasTy] at ht
       simp only [storageOK] at hst
       have e : serFn o (.struct fs) (.struct vs) =
-          topSer o (maxBits (.struct fs)) (fun c b => GenC.serFields o fs vs true c AOff.zero b 0) := by
+          topSer o (minBits (.struct fs)) (maxBits (.struct fs))
+            (fun c b => GenC.serFields o fs vs true c AOff.zero b 0) := by
         funext b c; simp only [serFn] <;> rfl
       rw [e]
       have hspec : serBits (.struct fs) (.struct vs) =
@@ -412,9 +438,11 @@ theorem serP_struct (fs : List Ty) (ih : ∀ f ∈ fs, SerP o f) : SerP o (.stru
         exact serFields_refines o hs fs (fun f hf => (ih f hf).1) hw hwC vs true capS AOff.zero sub 0 ht hst hwf hc
           (by omega) (adm_zero rfl) (fun _ => rfl)
       · intro bits hb
-        have := serFields_len (fun f _ => lenOK f) hw vs 0 bits hb
-        simp only [maxBits]
-        exact padTo_mono (Or.inr rfl) (by omega)
+        have := lenOK (.struct fs) (by simpa [wf] using hw) (.struct vs) (bits ++ zeros (padLen 8 bits.length))
+          (by simp only [serBits, hb, map_ok'])
+        simp only [List.length_append, zeros_length] at this
+        simp only [padTo]
+        exact ⟨this.1, this.2.1⟩
       · intro h0
         simp only [maxBits] at h0
         exact serFields_triv fs (fun f _ => trivOK f) hw hwC vs 0 ht (by omega)
@@ -425,12 +453,15 @@ theorem serP_struct (fs : List Ty) (ih : ∀ f ∈ fs, SerP o f) : SerP o (.stru
   cases v with
   | struct vs =>
     have e : serAny o (.struct fs) (.struct vs) cap d buf off =
-        nestedSer o (serFn o (.struct fs) (.struct vs)) false (fixedLen (.struct fs)) (maxBits (.struct fs)) cap d buf off := by
+        nestedSer o (serFn o (.struct fs) (.struct vs)) false (fixedLen (.struct fs)) (minBits (.struct fs))
+          (maxBits (.struct fs)) cap d buf off := by
       simp only [serAny, serFn]
     rw [e]
     simp only [align] at hal
-    exact nestedSer_refines o hs _ _ false _ _ hf (maxBits_composite_mod8 rfl)
-      (fun hfx bits hb => fixedLen_len hw hfx hb) cap d buf off hwf hcap hal hd (by simpa using hroom)
+    exact nestedSer_refines o hs _ _ false _ _ _ hf (maxBits_composite_mod8 rfl)
+      (fun hfx bits hb => fixedLen_len hw hfx hb)
+      (fun bits hb => ⟨(lenOK _ hw _ bits hb).1, (lenOK _ hw _ bits hb).2.1⟩)
+      cap d buf off hwf hcap hal hd (by simpa using hroom)
   | _ => simp [hasTy] at ht
 
 theorem serP_union (fs : List Ty) (ih : ∀ f ∈ fs, SerP o f) : SerP o (.union fs) := by
@@ -443,7 +474,7 @@ theorem serP_union (fs : List Ty) (ih : ∀ f ∈ fs, SerP o f) : SerP o (.union
       simp only [hasTy] at ht
       simp only [storageOK] at hst
       have e : serFn o (.union fs) (.union k v) =
-          topSer o (maxBits (.union fs)) (fun c b =>
+          topSer o (minBits (.union fs)) (maxBits (.union fs)) (fun c b =>
             match serInt o false (tagBits fs.length) (tagBits fs.length) false (k : Int) c AOff.zero b 0 with
             | .error e => .error e
             | .ok (b, f) => GenC.serNth o fs k v c (AOff.single (tagBits fs.length)) b f) := by
@@ -491,15 +522,12 @@ theorem serP_union (fs : List Ty) (ih : ∀ f ∈ fs, SerP o f) : SerP o (.union
             have := SerStep.trans hw1 (by simpa using h2)
             exact this
       · intro bits hb
-        simp only [maxBits]
-        by_cases hk : k ≥ fs.length
-        · simp [hk] at hb
-        · simp only [hk, if_false] at hb
-          rw [map_eq_ok] at hb
-          obtain ⟨bs, hbs, rfl⟩ := hb
-          have := serNth_len (fun f _ => lenOK f) hw.2 k v bs hbs
-          apply padTo_mono (Or.inr rfl)
-          simp only [List.length_append, natToBits_length]; omega
+        have hwu : wf (.union fs) = true := by simpa [wf] using hw
+        have := lenOK (.union fs) hwu (.union k v) (bits ++ zeros (padLen 8 bits.length))
+          (by rw [hspec, hb, map_ok'])
+        simp only [List.length_append, zeros_length] at this
+        simp only [padTo]
+        exact ⟨this.1, this.2.1⟩
       · intro h0
         simp only [maxBits] at h0
         omega
@@ -510,12 +538,15 @@ theorem serP_union (fs : List Ty) (ih : ∀ f ∈ fs, SerP o f) : SerP o (.union
   cases v with
   | union k v =>
     have e : serAny o (.union fs) (.union k v) cap d buf off =
-        nestedSer o (serFn o (.union fs) (.union k v)) false (fixedLen (.union fs)) (maxBits (.union fs)) cap d buf off := by
+        nestedSer o (serFn o (.union fs) (.union k v)) false (fixedLen (.union fs)) (minBits (.union fs))
+          (maxBits (.union fs)) cap d buf off := by
       simp only [serAny, serFn]
     rw [e]
     simp only [align] at hal
-    exact nestedSer_refines o hs _ _ false _ _ hf (maxBits_composite_mod8 rfl)
-      (fun hfx bits hb => fixedLen_len hw hfx hb) cap d buf off hwf hcap hal hd (by simpa using hroom)
+    exact nestedSer_refines o hs _ _ false _ _ _ hf (maxBits_composite_mod8 rfl)
+      (fun hfx bits hb => fixedLen_len hw hfx hb)
+      (fun bits hb => ⟨(lenOK _ hw _ bits hb).1, (lenOK _ hw _ bits hb).2.1⟩)
+      cap d buf off hwf hcap hal hd (by simpa using hroom)
   | _ => simp [hasTy] at ht
 
 theorem serP (t : Ty) : SerP o t := by
@@ -589,8 +620,13 @@ theorem serP (t : Ty) : SerP o t := by
       simp only [align] at hal
       simp only [serAny, serBits, ht.1, if_true]
       exact serElems_refines o hs t ih.1 hw hwC.2 cap d (AOff.rangeRep (resBits t) (n - 1) AOff.zero) (n - 1)
-        (fun x hx => adm_rangeRep_zero hx) vs n buf off hd (fun v hv => ⟨ht.2 v hv, hst v hv⟩) hwf hcap
+        (fun x hx => adm_rangeRep_zero hx) vs n _ buf off hd (fun v hv => ⟨ht.2 v hv, hst v hv⟩) hwf hcap
         (by rw [ht.1]; exact hroom) hal (by omega)
+        (by
+          intro bits hb
+          have := serAll_len (fun v bs h => lenOK t hw v bs h) vs bits hb
+          simp only [inRange, decide_eq_true_eq]
+          rw [← ht.1]; exact ⟨this.1, this.2.1⟩)
     | _ => simp [hasTy] at ht
   · -- variable array
     intro t c ih
@@ -620,11 +656,13 @@ theorem serP (t : Ty) : SerP o t := by
         simp only [natToBits_length] at hb1
         rw [hb1]
         dsimp only
+        rw [assertC_ok o (fun ho => hs.aligned (adm_add hd (adm_single (prefixBits c))) ho)]
         have hmul : vs.length * maxBits t ≤ c * maxBits t := Nat.mul_le_mul_right _ (by omega)
         have h2 := serElems_refines o hs t ih.1 hw.2 hwC cap d (resBits (.varr t c)) c
-          (fun x hx => by simpa [resBits] using adm_rangeRep_zero hx) vs c b1 (off + prefixBits c)
+          (fun x hx => by simpa [resBits] using adm_rangeRep_zero hx) vs c none b1 (off + prefixBits c)
           (adm_congr (by omega) hd) (fun v hv => ⟨ht v hv, hst.2 v hv⟩) (hw1.wf hwf) (by rw [hw1.len]; exact hcap)
           (by omega) (by rcases align_cases t with e | e <;> rw [e] at hal ⊢ <;> omega) (by omega)
+          (fun _ _ => rfl)
         cases hsa : serAllWith (serBits t) vs with
         | error e =>
           rw [hsa] at h2
@@ -649,7 +687,7 @@ theorem serP (t : Ty) : SerP o t := by
       cases inner <;> simp [isComposite] at hcomp <;> simpa [storageOK] using hst
     have hf := ih.2 hwi hwC hcomp v hti hsti
     have e : serAny o (.delim ext inner) v cap d buf off =
-        nestedSer o (serFn o inner v) true (fixedLen inner) (maxBits inner) cap d buf off := by
+        nestedSer o (serFn o inner v) true (fixedLen inner) (minBits inner) (maxBits inner) cap d buf off := by
       cases inner <;> simp [isComposite] at hcomp <;> cases v <;> simp only [serAny]
     have hspec : serBits (.delim ext inner) v =
         (serBits inner v).map fun bs => natToBits 32 (bs.length / 8) ++ bs := by
@@ -657,8 +695,10 @@ theorem serP (t : Ty) : SerP o t := by
     rw [e, hspec]
     simp only [align] at hal
     simp only [maxBits, headerBits] at hroom
-    have := nestedSer_refines o hs _ _ true (fixedLen inner) _ hf (maxBits_composite_mod8 hcomp)
-      (fun hfx bits hb => fixedLen_len hwi hfx hb) cap d buf off hwf hcap hal hd (by simp only [if_true]; omega)
+    have := nestedSer_refines o hs _ _ true (fixedLen inner) _ _ hf (maxBits_composite_mod8 hcomp)
+      (fun hfx bits hb => fixedLen_len hwi hfx hb)
+      (fun bits hb => ⟨(lenOK _ hwi _ bits hb).1, (lenOK _ hwi _ bits hb).2.1⟩)
+      cap d buf off hwf hcap hal hd (by simp only [if_true]; omega)
     simpa using this
 
 /-! ### the generated serializer, top level -/
